@@ -632,9 +632,11 @@ def _compute_expression_ir(
         object_names.get(id(obj), f"w{j}") for j, obj in enumerate(coefficients)
     ]
 
+    # All constants of the original expression, as for the constant offsets
+    # used by the kernel (preprocessing may eliminate some of them)
     ir["constant_names"] = [
         object_names.get(id(obj), f"c{j}")
-        for j, obj in enumerate(ufl.algorithms.analysis.extract_constants(expr))
+        for j, obj in enumerate(ufl.algorithms.analysis.extract_constants(original_expr))
     ]
 
     expr_name = object_names.get(id(original_expr), index)
